@@ -26,7 +26,7 @@ ASSUMPTIONS = [
     "any exception counts as refusal of an invalid ephemeral point (types are judged in C14)",
 ]
 REQUIRED_CLASSES = ["sel=0", "sel=1", "sel=2", "sel=3", "edge-scalar", "default.no-encryptor", "default.encryptor(sel)", "default.write_file",
-                    "shared-x.leading-zero", "reject.off-curve", "reject.coord>=p", "reject.zero", "reject.other-curve", "key.ends00"]
+                    "shared-x.leading-zero", "reject.off-curve", "reject.coord>=p", "reject.constructed-y+p", "reject.constructed-x+p", "reject.zero", "reject.other-curve", "key.ends00"]
 
 B2 = sut.B2
 P = 0xFFFFFFFF00000001000000000000000000000000FFFFFFFFFFFFFFFFFFFFFFFF
@@ -264,6 +264,95 @@ def strat_reject(draw, tier="quick"):
     return dict(kind=kind, x=x, y=y, sel=draw(st.integers(0, 3)), priv=draw(S.ecc_priv()), ct=draw(st.binary(min_size=16, max_size=16)))
 
 
+# ---- constructed: points with a small y (so that y + p still fits in 32 bytes) ------------------------------------------
+P256_B = 0x5AC635D8AA3A93E7B3EBBD55769886BC651D06B0CC53B0F63BCE3C3E27D2604B
+
+
+def _polymulmod(f, g, mod3, p):
+    """(f*g) mod (x^3 + 0x^2 + a1 x + a0) over F_p; polys as [c0, c1, c2]; mod3 = (a0, a1)"""
+    a0, a1 = mod3
+    r = [0] * 5
+    for i, fi in enumerate(f):
+        if fi:
+            for j, gj in enumerate(g):
+                r[i + j] = (r[i + j] + fi * gj) % p
+    for d in (4, 3):  # x^3 = -a1 x - a0
+        c = r[d]
+        if c:
+            r[d] = 0
+            r[d - 2] = (r[d - 2] - c * a1) % p
+            r[d - 3] = (r[d - 3] - c * a0) % p
+    return r[:3]
+
+
+def cubic_roots(a1, a0, p):
+    """roots of x^3 + a1 x + a0 over F_p when it has exactly one (returns [] otherwise): gcd(x^p - x, f) of degree 1"""
+    base, res, e = [0, 1, 0], [1, 0, 0], p
+    while e:
+        if e & 1:
+            res = _polymulmod(res, base, (a0, a1), p)
+        base = _polymulmod(base, base, (a0, a1), p)
+        e >>= 1
+    h = [(res[0]) % p, (res[1] - 1) % p, res[2] % p]  # x^p - x mod f
+    # gcd(f, h) with f = x^3 + a1 x + a0
+    f = [a0 % p, a1 % p, 0, 1]
+    g = h[:]
+    while len(g) and g[-1] == 0:
+        g.pop()
+    while g:
+        # f = f mod g
+        while len(f) >= len(g) and f:
+            c = f[-1] * pow(g[-1], -1, p) % p
+            sh = len(f) - len(g)
+            for i, gi in enumerate(g):
+                f[i + sh] = (f[i + sh] - c * gi) % p
+            while f and f[-1] == 0:
+                f.pop()
+        f, g = g, f
+    if len(f) == 2:
+        return [(-f[0]) * pow(f[1], -1, p) % p]
+    return []
+
+
+def small_y_points(count):
+    """P-256 points (x, y) with y = 1, 2, 3, ... (constructed by solving the cubic for x), verified with OpenSSL"""
+    out = []
+    y = 0
+    g = M.p256()
+    while len(out) < count and y < 200:
+        y += 1
+        for x in cubic_roots(-3 % P, (P256_B - y * y) % P, P):
+            if g.on_curve((x, y)):
+                out.append((x, y))
+    return out
+
+
+def enum_small_y(tier, shard, nshards, rng):
+    """coordinates >= p whose reduction IS a valid point: (X, y + p) fits in 32 bytes only for y < 2^256 - p, so it is constructed"""
+    pts = small_y_points(4 if tier == "quick" else 16)
+    for i, (x, y) in enumerate(pts):
+        if i % nshards == shard:
+            yield dict(kind="coord>=p", x=x, y=y + P, sel=i % 4, priv=1 + i, ct=bytes(rng.getrandbits(8) for _ in range(16)), constructed="y+p")
+    # and x + p for small x (cheap: small x, square root by OpenSSL point decompression)
+    n = 0
+    x = 0
+    g = M.p256()
+    while n < (4 if tier == "quick" else 16):
+        x += 1
+        try:
+            pt = g.oct2point(b"\x02" + x.to_bytes(32, "big"))
+        except ValueError:
+            continue
+        n += 1
+        if n % nshards == shard:
+            yield dict(kind="coord>=p", x=x + P, y=pt[1], sel=n % 4, priv=7 + n, ct=bytes(rng.getrandbits(8) for _ in range(16)), constructed="x+p")
+
+
+def check_small_y(case, rec):
+    rec.cls("reject.constructed-" + case["constructed"])
+    check_reject(case, rec)
+
+
 def enum_pinned(tier, shard, nshards, rng):
     for sel in range(4):
         yield dict(sel=sel)
@@ -281,5 +370,6 @@ def parts(tier):
         Part("default", check=check_default, strategy=strat_default, quick=(16, 100), thorough=(16, 1500)),
         Part("interop", check=check_interop, strategy=strat_interop, quick=(16, 60), thorough=(16, 1000)),
         Part("rawder", check=check_rawder, strategy=strat_rawder, quick=(4, 40), thorough=(16, 300)),
+        Part("reject_constructed", check=check_small_y, enum=enum_small_y, quick=(2, 0), thorough=(4, 0)),
         Part("reject", check=check_reject, strategy=lambda tier: strat_reject(tier), quick=(16, 150), thorough=(16, 2500)),
     ]
